@@ -93,14 +93,15 @@ type abort struct {
 }
 
 type Limits struct {
-	MaxSteps    int64
-	ConcCap     int
-	MaxPaths    int
-	Deadline    time.Time
-	QueryMs     int
-	SolverKind  string
-	Workers     int
-	StopOnFirst bool // stop exploring a job at the first violation
+	MaxSteps      int64
+	ConcCap       int
+	MaxPaths      int
+	Deadline      time.Time
+	QueryMs       int
+	SolverKind    string
+	Workers       int
+	StopOnFirst   bool // stop exploring a job at the first violation
+	MaxViolations int  // stop exploring a job once this many violating paths were collected (0 = never)
 }
 
 type Path struct {
@@ -461,24 +462,25 @@ func (e *Explorer) pending() int {
 
 // JobResult aggregates all paths of one harness run.
 type JobResult struct {
-	Name               string
-	Paths              []*PathResult // violations, known, unsupported, budget, internal (all non-ok kept); ok sampled
-	Counts             map[Status]int
-	Reach              map[string]int
-	Steps              int64
-	Queries            smt.Stats
-	Decisions          int64
-	Verdicts           int
-	Wall               time.Duration
-	Incomplete         string // non-empty if exploration stopped early
-	OKSamples          []*PathResult
-	Distinct           int
-	Funcs              map[string]bool
-	KnownHits          map[string]int
-	UncertainOK        int
-	CrossQueries       int
-	CrossDisagreements int
-	CrossErrors        []string
+	Name                string
+	Paths               []*PathResult // violations, known, unsupported, budget, internal (all non-ok kept); ok sampled
+	Counts              map[Status]int
+	Reach               map[string]int
+	Steps               int64
+	Queries             smt.Stats
+	Decisions           int64
+	Verdicts            int
+	Wall                time.Duration
+	Incomplete          string // non-empty if exploration stopped early
+	OKSamples           []*PathResult
+	Distinct            int
+	Funcs               map[string]bool
+	KnownHits           map[string]int
+	UncertainOK         int
+	CrossQueries        int
+	CrossDisagreements  int
+	CrossErrors         []string
+	StoppedOnViolations bool
 }
 
 func sortedKeys[M ~map[string]V, V any](m M) []string {
